@@ -1406,8 +1406,17 @@ def canon(expr, params=(), rename=None, consts=None):
                     return ('cmp', ('Eq',), c(o), ('const', '0'))
             return ('unary', type(e.op).__name__, c(e.operand))
         if isinstance(e, ast.BinOp):
+            # a choice inside a sum / product is the choice between the sums: a + (x if t else y) is (a + x) if t else (a + y)
+            if isinstance(e.op, (ast.Add, ast.Sub, ast.Mult)) and isinstance(e.left, ast.IfExp) != isinstance(e.right, ast.IfExp):
+                if isinstance(e.right, ast.IfExp):
+                    ch = e.right
+                    return c(ast.IfExp(test=ch.test, body=ast.BinOp(left=e.left, op=e.op, right=ch.body), orelse=ast.BinOp(left=e.left, op=e.op, right=ch.orelse)))
+                ch = e.left
+                return c(ast.IfExp(test=ch.test, body=ast.BinOp(left=ch.body, op=e.op, right=e.right), orelse=ast.BinOp(left=ch.orelse, op=e.op, right=e.right)))
             if isinstance(e.op, ast.Add):
-                items = flat(e, ast.Add)
+                items = [x for x in flat(e, ast.Add) if x != ('const', '0')] or [('const', '0')]
+                if len(items) == 1:
+                    return items[0]
                 return ('add',) + tuple(sorted(items, key=repr))
             if isinstance(e.op, ast.Sub):
                 items = flat(e, ast.Add)
@@ -1451,6 +1460,9 @@ def canon(expr, params=(), rename=None, consts=None):
                     args = [c(recv)] + [c(a) for a in e.args]
                     kws = tuple(sorted((k.arg or '**', c(k.value)) for k in e.keywords))
                     return ('call', ('fn', 'np.' + e.func.attr), tuple(args), kws)
+            if fn == 'getattr' and len(e.args) == 2 and not e.keywords and isinstance(e.args[1], ast.Constant) and isinstance(e.args[1].value, str) \
+                    and e.args[1].value.isidentifier():
+                return c(ast.Attribute(value=e.args[0], attr=e.args[1].value, ctx=ast.Load()))      # getattr(x, 'name') is x.name
             if fn in ('dict', 'list', 'tuple') and not e.args and not e.keywords:
                 return (fn,)
             if fn == 'list' and len(e.args) == 1 and not e.keywords and isinstance(e.args[0], (ast.Tuple, ast.List)) \
@@ -1581,6 +1593,33 @@ def canon(expr, params=(), rename=None, consts=None):
                 hit, miss = (e.body, e.orelse) if isinstance(t.ops[0], ast.In) else (e.orelse, e.body)
                 if isinstance(hit, ast.Subscript) and ast.dump(hit.value) == ast.dump(t.comparators[0]) and ast.dump(hit.slice) == ast.dump(t.left):
                     return c(ast.Call(func=ast.Attribute(value=hit.value, attr='get', ctx=ast.Load()), args=[t.left, miss], keywords=[]))
+            # chained choices with a common arm: `n if p else (n if q else x)` is `n if (p or q) else x`;
+            # `(x if q else n) if p else n` is `x if (p and q) else n`
+            if isinstance(e.orelse, ast.IfExp) and ast.dump(e.orelse.body) == ast.dump(e.body):
+                return c(ast.IfExp(test=ast.BoolOp(op=ast.Or(), values=[t, e.orelse.test]), body=e.body, orelse=e.orelse.orelse))
+            if isinstance(e.body, ast.IfExp) and ast.dump(e.body.orelse) == ast.dump(e.orelse):
+                return c(ast.IfExp(test=ast.BoolOp(op=ast.And(), values=[t, e.body.test]), body=e.body.body, orelse=e.orelse))
+            if isinstance(t, ast.BoolOp):
+                flat_vals = []
+                for v in t.values:
+                    if isinstance(v, ast.BoolOp) and type(v.op) is type(t.op):
+                        flat_vals.extend(v.values)
+                    else:
+                        flat_vals.append(v)
+                if len(flat_vals) != len(t.values):
+                    t = ast.BoolOp(op=t.op, values=flat_vals)
+                    e = ast.IfExp(test=t, body=e.body, orelse=e.orelse)
+            # `a if (not p or not q) else b` is `b if (p and q) else a` (De Morgan on a test made of negations only)
+            def negative(v):
+                return (isinstance(v, ast.UnaryOp) and isinstance(v.op, ast.Not)) or (
+                    isinstance(v, ast.Compare) and len(v.ops) == 1 and type(v.ops[0]) in (ast.NotEq, ast.IsNot, ast.NotIn))
+
+            def positive(v):
+                if isinstance(v, ast.UnaryOp):
+                    return v.operand
+                return ast.Compare(left=v.left, ops=[_NEG_CMP[type(v.ops[0])]()], comparators=v.comparators)
+            if isinstance(t, ast.BoolOp) and isinstance(t.op, ast.Or) and all(negative(v) for v in t.values):
+                return c(ast.IfExp(test=ast.BoolOp(op=ast.And(), values=[positive(v) for v in t.values]), body=e.orelse, orelse=e.body))
             # `a if not c else b` is `b if c else a` (same orientation rule as for statements)
             if isinstance(t, ast.UnaryOp) and isinstance(t.op, ast.Not):
                 return c(ast.IfExp(test=t.operand, body=e.orelse, orelse=e.body))
